@@ -133,6 +133,88 @@ func runC08(w *World, r *Report, tier string) {
 	guardRows(w, r, "C08")
 }
 
+// shiftOutputs locates, for every return of a shift-like function, the numeric
+// values printed as fields 0..4 of the returned ID: either the FormatInt
+// arguments of a joined five-element literal, or the arguments of the setters
+// applied to the object whose ID() is returned (missing entries = field kept
+// from the copied source object).
+func shiftOutputs(w *World, f *ssa.Function) []map[int]ssa.Value {
+	var outs []map[int]ssa.Value
+	ke := kindsFor(w)
+	idFn := lookupByName(w, "common/object.(ExtendedSpatialID).ID")
+	for _, ret := range returnsOf(f) {
+		c, ok := resolve(ret.Results[0]).(*ssa.Call)
+		if !ok {
+			continue
+		}
+		if calleeIs(c, "strings", "Join") {
+			vals, ok := sliceLiteral(c.Call.Args[0])
+			if !ok || len(vals) != 5 {
+				continue
+			}
+			m := map[int]ssa.Value{}
+			for i, v := range vals {
+				if fc, ok := resolve(v).(*ssa.Call); ok && (calleeIs(fc, "strconv", "FormatInt") || calleeIs(fc, "strconv", "Itoa")) {
+					m[i] = fc.Call.Args[0]
+				}
+			}
+			if len(m) == 5 {
+				outs = append(outs, m)
+			}
+			continue
+		}
+		if idFn != nil && calleeOf(c) == idFn && len(c.Call.Args) == 1 {
+			// receiver object: value loaded from a local struct or through a pointer
+			recv := stripConv(c.Call.Args[0])
+			var obj ssa.Value
+			if ld, ok := loadOf(recv); ok {
+				obj = ld
+			} else {
+				obj = recv
+			}
+			m := map[int]ssa.Value{}
+			instrs(f, func(in ssa.Instruction) {
+				sc, ok := in.(*ssa.Call)
+				if !ok || calleeOf(sc) == nil || len(sc.Call.Args) < 2 {
+					return
+				}
+				g := calleeOf(sc)
+				if g.Signature.Recv() == nil || !isNamed(g.Signature.Recv().Type(), "common/object", "ExtendedSpatialID") {
+					return
+				}
+				if stripConv(sc.Call.Args[0]) != obj {
+					return
+				}
+				for i := 1; i < len(sc.Call.Args); i++ {
+					role := ke.paramRole(g, i)
+					if role == nil {
+						continue
+					}
+					if k, ok := role.Scalar.single(); ok {
+						switch k {
+						case kHZ:
+							m[0] = sc.Call.Args[i]
+						case kX:
+							m[1] = sc.Call.Args[i]
+						case kY:
+							m[2] = sc.Call.Args[i]
+						case kVZ:
+							m[3] = sc.Call.Args[i]
+						case kF:
+							m[4] = sc.Call.Args[i]
+						}
+					}
+				}
+			})
+			if len(m) > 0 {
+				m[-1] = obj // marker: setter form
+				outs = append(outs, m)
+			}
+		}
+	}
+	return outs
+}
+
 // ruleNoWrapF: the vertical field of the returned ID is exactly f + dv.
 func ruleNoWrapF(w *World, r *Report, f *ssa.Function) {
 	r.Rule("NOWRAP-F", "the vertical index of a shifted ID is the integer sum (parsed f) + dv: no modulus, clamp, branch or other arithmetic between the parsed index and the printed one")
@@ -145,23 +227,14 @@ func ruleNoWrapF(w *World, r *Report, f *ssa.Function) {
 	can := w.IsCanary(f)
 	pos := w.Pos(f.Pos())
 	n := 0
-	for _, ret := range returnsOf(f) {
-		c, ok := resolve(ret.Results[0]).(*ssa.Call)
-		if !ok || !calleeIs(c, "strings", "Join") {
-			continue
-		}
-		vals, ok := sliceLiteral(c.Call.Args[0])
-		if !ok || len(vals) != 5 {
+	for _, m := range shiftOutputs(w, f) {
+		fv, ok := m[4]
+		if !ok {
 			continue
 		}
 		n++
 		key := fmt.Sprintf("NOWRAP-F / %s / return#%d", name, n)
-		fc, ok := resolve(vals[4]).(*ssa.Call)
-		if !ok || !calleeIs(fc, "strconv", "FormatInt") {
-			r.Add(Obligation{Rule: "NOWRAP-F", Key: key, Pos: w.Pos(ret.Pos()), Status: Undecided, Detail: "the fifth field is not printed with strconv.FormatInt", Canary: can})
-			continue
-		}
-		v := resolve(fc.Call.Args[0])
+		v := resolve(fv)
 		b, ok := v.(*ssa.BinOp)
 		good := false
 		if ok && b.Op == token.ADD {
@@ -180,13 +253,13 @@ func ruleNoWrapF(w *World, r *Report, f *ssa.Function) {
 			}
 		}
 		if good {
-			r.Add(Obligation{Rule: "NOWRAP-F", Key: key, Pos: w.Pos(ret.Pos()), Status: Discharged, Detail: "vertical field = Z() + dv", Canary: can})
+			r.Add(Obligation{Rule: "NOWRAP-F", Key: key, Pos: pos, Status: Discharged, Detail: "vertical field = Z() + dv", Canary: can})
 		} else {
-			r.Add(Obligation{Rule: "NOWRAP-F", Key: key, Pos: w.Pos(ret.Pos()), Status: Violated, Detail: "the printed vertical index is not the plain sum of the parsed index and dv (" + describeValue(fc.Call.Args[0]) + "): the vertical axis must be advanced without bound", Canary: can})
+			r.Add(Obligation{Rule: "NOWRAP-F", Key: key, Pos: pos, Status: Violated, Detail: "the printed vertical index is not the plain sum of the parsed index and dv (" + describeValue(fv) + "): the vertical axis must be advanced without bound", Canary: can})
 		}
 	}
 	if n == 0 {
-		r.Add(Obligation{Rule: "NOWRAP-F", Key: "NOWRAP-F / " + name, Pos: pos, Status: Undecided, Detail: "no return of a joined five-field ID found", Canary: can})
+		r.Add(Obligation{Rule: "NOWRAP-F", Key: "NOWRAP-F / " + name, Pos: pos, Status: Info, Detail: "the printed vertical index could not be located (neither a joined five-field literal nor setters on the returned object)", Canary: can})
 	}
 }
 
@@ -199,33 +272,29 @@ func ruleZoomPassthru(w *World, r *Report) {
 		return
 	}
 	ke := kindsFor(w)
-	for _, ret := range returnsOf(f) {
-		c, ok := resolve(ret.Results[0]).(*ssa.Call)
-		if !ok || !calleeIs(c, "strings", "Join") {
-			continue
-		}
-		vals, ok := sliceLiteral(c.Call.Args[0])
-		if !ok || len(vals) != 5 {
-			continue
-		}
+	for _, m := range shiftOutputs(w, f) {
 		for _, it := range []struct {
 			i int
 			k Kind
 		}{{0, kHZ}, {3, kVZ}} {
 			key := fmt.Sprintf("%s / field %d", fn, it.i)
-			fc, ok := resolve(vals[it.i]).(*ssa.Call)
+			v, has := m[it.i]
+			if !has {
+				if _, setterForm := m[-1]; setterForm {
+					r.add("PASSTHRU", key, w.Pos(f.Pos()), Discharged, "zoom field is kept from the copied input object (no setter touches it)")
+				}
+				continue
+			}
 			good := false
-			if ok && calleeIs(fc, "strconv", "FormatInt") {
-				if ac, ok := resolve(fc.Call.Args[0]).(*ssa.Call); ok && calleeOf(ac) != nil {
-					if fv := accessorField(calleeOf(ac)); fv != nil && ke.fieldK[fv] == ks(it.k) {
-						good = true
-					}
+			if ac, ok := resolve(v).(*ssa.Call); ok && calleeOf(ac) != nil {
+				if fv := accessorField(calleeOf(ac)); fv != nil && ke.fieldK[fv] == ks(it.k) {
+					good = true
 				}
 			}
 			if good {
-				r.add("PASSTHRU", key, w.Pos(ret.Pos()), Discharged, "zoom field printed from the parsed "+kindNames[it.k])
+				r.add("PASSTHRU", key, w.Pos(f.Pos()), Discharged, "zoom field printed from the parsed "+kindNames[it.k])
 			} else {
-				r.add("PASSTHRU", key, w.Pos(ret.Pos()), Violated, "zoom field "+fmtInt(it.i)+" is not the parsed zoom printed unchanged")
+				r.add("PASSTHRU", key, w.Pos(f.Pos()), Violated, "zoom field "+fmtInt(it.i)+" is not the parsed zoom printed unchanged")
 			}
 		}
 	}
